@@ -66,6 +66,28 @@ fn prog_sweep(kinds: &[&str], pools: &[usize], quick_pairs: Option<usize>, thoro
     v
 }
 
+/// pair programs with an arbitrary cfg prefix (e.g. a pinned pool); `self_only`: only ops that complete
+/// on their own thread whatever the pool does
+fn prog_pairs(kinds: &[&str], prefix: &str, self_only: bool, quick: Option<usize>, thorough: usize, quick_stride: usize) -> Vec<Item> {
+    let mut v = vec![];
+    let n = OPS.len() as i64;
+    let mut idx = 0usize;
+    for a in 0..n {
+        for b in 0..n {
+            if !(kinds.is_empty() || [a, b].iter().any(|c| kinds.contains(&OPS[*c as usize]))) {
+                continue;
+            }
+            if self_only && !(crate::scenarios::prog::self_driving(a) && crate::scenarios::prog::self_driving(b)) {
+                continue;
+            }
+            idx += 1;
+            let q = if idx % quick_stride == 0 { quick } else { None };
+            v.push(small(it("prog", &format!("{},a={},b={}", prefix, a, b), q, thorough)));
+        }
+    }
+    v
+}
+
 pub fn plan(prop: &str) -> Vec<Item> {
     let mut v = vec![];
     match prop {
@@ -89,11 +111,16 @@ pub fn plan(prop: &str) -> Vec<Item> {
                 v.push(it("excl_drop", &format!("pool=2,k=1,other={}", other), Some(if other == 2 { 2 } else { 1 }), 2));
             }
             v.push(it("excl_drop", "pool=1,k=2,other=0", Some(2), 3));
+            for mode in [2, 3] {
+                v.push(it("fs_cancel", &format!("pool=1,mode={}", mode), Some(2), 3));
+            }
             v.push(it("excl_drop", "pool=0,k=1,other=0", Some(2), 3));
             v.push(it("pipe_in_items", "pool=1,n=2,pat=1,conc=1", Some(1), 2));
             v.push(it("drop_obj", "pool=1,state=3,dropper=2", Some(1), 2));
             v.extend(prog_sweep(&[], &[1], Some(1), 2, Some(1), 1));
             v.extend(prog_sweep(&[], &[0, 2], None, 1, None, 1));
+            v.extend(prog_pairs(&[], "pool=1,busy=1", false, Some(1), 1, 3));
+            v.extend(prog_pairs(&[], "pool=1,busy=1,late=1", true, Some(1), 2, 1));
         }
         "C02" => {
             for a in 0..6 {
@@ -132,6 +159,9 @@ pub fn plan(prop: &str) -> Vec<Item> {
             v.push(it("pipe_in_items", "pool=1,n=2,pat=1,conc=2", Some(1), 2));
             v.extend(prog_sweep(&["D", "Dn", "Dx", "Sn", "FDd", "AF"], &[1], Some(1), 2, Some(1), 1));
             v.extend(prog_sweep(&["D", "Dn", "Dx", "Sn", "FDd", "AF"], &[2], None, 1, None, 1));
+            v.extend(prog_pairs(&["D", "Dn", "Dx", "Sn", "FDd", "AF", "FDx"], "pool=1,busy=1", false, Some(1), 2, 2));
+            v.extend(prog_pairs(&["D", "Dn", "Sn"], "pool=1,busy=1,late=1", true, Some(1), 2, 1));
+            v.extend(prog_pairs(&["D", "Dn", "Dx", "Sn", "FDd", "AF", "FDx"], "pool=2,busy=2", false, None, 1, 1));
         }
         "C04" => {
             for st in [0, 1, 2, 3, 4, 5, 8] {
@@ -152,6 +182,8 @@ pub fn plan(prop: &str) -> Vec<Item> {
             v.push(it("fd_result", "pool=0,mode=3,k=2", Some(3), 4));
             v.extend(prog_sweep(&["S", "Sn", "Dx", "FDs"], &[1], Some(1), 2, Some(1), 1));
             v.extend(prog_sweep(&["S", "Sn", "FDs"], &[0], Some(1), 2, None, 1));
+            v.extend(prog_pairs(&["S", "Sn", "FDs"], "pool=1,busy=1,late=1", true, Some(1), 2, 1));
+            v.extend(prog_pairs(&["S", "Sn", "Dx", "FDs"], "pool=1,busy=1", false, Some(1), 2, 2));
         }
         "C05" => {
             for state in 0..4 {
@@ -212,7 +244,8 @@ pub fn plan(prop: &str) -> Vec<Item> {
                 }
             }
             v.push(it("fs_nested", "pool=1,shape=1", Some(2), 3));
-            v.extend(prog_sweep(&["FDa", "FDd", "FDs", "AF"], &[1], Some(1), 2, Some(1), 1));
+            v.extend(prog_sweep(&["FDa", "FDd", "FDs", "AF", "FDx"], &[1], Some(1), 2, Some(1), 1));
+            v.extend(prog_pairs(&["FDa", "FDd", "FDs", "AF", "FDx"], "pool=1,busy=1", false, Some(1), 2, 2));
         }
         "C08" => {
             for mode in 0..4 {
@@ -246,6 +279,7 @@ pub fn plan(prop: &str) -> Vec<Item> {
             v.push(it("excl_susp", "pool=1,kind=0", Some(2), 3));
             v.extend(prog_sweep(&["T"], &[1], Some(1), 2, Some(1), 1));
             v.extend(prog_sweep(&["T"], &[0], Some(1), 2, None, 1));
+            v.extend(prog_pairs(&["T"], "pool=1,busy=1,late=1", true, Some(1), 2, 1));
         }
         "C10" => {
             v.push(it("indep", "pool=2,k=1,mode=0,syncer=0", Some(1), 2));
@@ -254,6 +288,10 @@ pub fn plan(prop: &str) -> Vec<Item> {
             v.push(it("indep", "pool=2,k=1,mode=1,syncer=1", Some(1), 1));
             v.push(it("indep", "pool=3,k=2,mode=2,syncer=0", Some(0), 1));
             v.push(it("indep", "pool=3,k=2,mode=0,syncer=0", None, 1));
+            for how in [0, 1] {
+                v.push(it("indep_stale", &format!("pool=2,how={}", how), Some(1), 2));
+            }
+            v.push(it("indep_stale", "pool=3,how=0", None, 1));
         }
         "C11" => {
             for n in [0, 1, 2] {
@@ -370,7 +408,7 @@ pub fn owners(scenario: &str, part: &str) -> Vec<&'static str> {
         "fd_result" | "fd_two" => vec!["C07", "C04"],
         "fs_cancel" | "fs_nested" => vec!["C08"],
         "try_paths" | "f1_try_sync_idle_nonempty" => vec!["C09", "C03"],
-        "indep" => vec!["C10"],
+        "indep" | "indep_stale" => vec!["C10"],
         "drop_obj" => vec!["C05"],
         "suspend" => vec!["C13"],
         "panic_contain" => vec!["C15"],
@@ -402,10 +440,27 @@ pub fn owners(scenario: &str, part: &str) -> Vec<&'static str> {
     };
     let mut v: Vec<&'static str> = match class {
         "OVERLAP" => {
-            if part.contains("pipe-item") { vec!["C01", "C11"] } else { vec!["C01"] }
+            let mut v = vec!["C01"];
+            if part.contains("pipe-item") {
+                v.push("C11");
+            }
+            if mentions_future_sync(part) {
+                v.push("C08");
+            }
+            v
         }
         "ORDER" => {
-            if scenario == "suspend" { vec!["C02", "C13"] } else if scenario == "drop_obj" { vec!["C02", "C05"] } else { vec!["C02"] }
+            let mut v = vec!["C02"];
+            if scenario == "suspend" {
+                v.push("C13");
+            }
+            if scenario == "drop_obj" {
+                v.push("C05");
+            }
+            if mentions_future_sync(part) {
+                v.push("C08");
+            }
+            v
         }
         "STRANDED" | "UNFINISHED" | "NOT-QUIET" | "DUPLICATE" => {
             let mut v = vec!["C03"];
